@@ -85,6 +85,35 @@ theorem comap_accepts {ο ο' μ : Type} (f : ο' → ο) (m : ObsMonitor ο μ)
   simp only [ObsMonitor.accepts]
   rw [comap_run]; rfl
 
+/-- pull a monitor back along a partial map: observables mapped to `none` are ignored -/
+def _root_.UtilModel.ObsMonitor.comapOpt {ο ο' μ : Type} (f : ο' → Option ο) (m : ObsMonitor ο μ) :
+    ObsMonitor ο' μ where
+  init := m.init
+  step := fun ms o =>
+    match f o with
+    | none => some ms
+    | some x => m.step ms x
+
+theorem comapOpt_run {ο ο' μ : Type} (f : ο' → Option ο) (m : ObsMonitor ο μ) (ms : μ) (h : List ο') :
+    (m.comapOpt f).run ms h = m.run ms (h.filterMap f) := by
+  induction h generalizing ms with
+  | nil => rfl
+  | cons o os ih =>
+    simp only [ObsMonitor.run, List.filterMap_cons]
+    show (match f o with | none => some ms | some x => m.step ms x).bind _ = _
+    cases hf : f o with
+    | none => simp [ih]
+    | some x =>
+      simp only [ObsMonitor.run]
+      cases m.step ms x with
+      | none => rfl
+      | some m1 => simp [ih]
+
+theorem comapOpt_accepts {ο ο' μ : Type} (f : ο' → Option ο) (m : ObsMonitor ο μ) (h : List ο') :
+    (m.comapOpt f).accepts h = m.accepts (h.filterMap f) := by
+  simp only [ObsMonitor.accepts]
+  rw [comapOpt_run]; rfl
+
 /-! ## Proof: linearizable ⇒ flow monitor accepts -/
 
 theorem count_flatMap_set {α : Type} (f : α → List Nat) (l : List α) (t : Nat) (a b : α)
